@@ -143,15 +143,22 @@ fn struct_field_has_sigs(fields: &syn::Fields) -> TokenStream {
     }
 
     quote! {
-        if sig.starts_with('(') {
+        if sig.len() >= 2 && sig.starts_with('(') && sig.ends_with(')') {
             let mut iter = ::rustbus::signature::SignatureIter::new(&sig[1..sig.len() - 1]);
-            let mut accu = true;
 
             #(
-                accu &= <#field_types as rustbus::Signature>::has_sig(iter.next().unwrap());
+                match iter.next() {
+                    Some(field_sig) => {
+                        if !<#field_types as rustbus::Signature>::has_sig(field_sig) {
+                            return false;
+                        }
+                    }
+                    None => return false,
+                }
             )*
 
-            accu
+            // the struct in the signature must not have more fields than this struct
+            iter.next().is_none()
         } else {
             false
         }
